@@ -11,6 +11,7 @@ import mcase
 import lcase
 import bcase
 import dcase
+import ccase
 import qcase
 from gens import CHILD, derive_path, rand_doc, small_scope, SMALL_STEPS_CHILD, SMALL_STEPS_FULL, SMALL_DOCS
 from terms import otree_diff, otree_to_json
@@ -35,6 +36,7 @@ FAMILIES = {
     'm': dict(printer=mcase.g_mcase, run_fn="(run_mcase BUDGET)", case_type="mcase", imports=" Mutate RunM"),
     'l': dict(printer=lcase.g_lcase, run_fn="run_lcase", case_type="lcase", imports=" DocList RunL"),
     'b': dict(printer=bcase.g_bcase, run_fn="(run_bcase BUDGET)", case_type="bcase", imports=" Builder"),
+    'c': dict(printer=ccase.g_ccase, run_fn="(run_ccase BUDGET)", case_type="ccase", imports=" RunC", shard=1),
     'd': dict(printer=dcase.g_dcase, run_fn="(run_dcase BUDGET)", case_type="mcase", imports=" Mutate RunM"),
 }
 
@@ -612,7 +614,7 @@ def nontrivial_trace(case, o):
 
 
 def gen_C20(rng, tier):
-    out = []
+    out = [{'family': 'c', 'case': ccase.gen_ccase(rng)} for _ in range(sized(tier, 8, 60))]
     for _ in range(sized(tier, 1500, 20000)):
         d = rand_doc(rng, big=rng.random() < 0.3)
         p = derive_path(rng, d, CHILD + ('rec', 'parent'), maxextra=2, pred_depth=1)
@@ -774,8 +776,12 @@ REGISTRY = {
     'C17': dict(level='proof', gen=gen_C17, oracle=oracle_C17, nontrivial=nontrivial_trace,
                 rule="the same query traced and untraced (iterators, get_match, get, from a Match); non-trivial = >= 3 trace "
                      "events and >= 1 result", obligations=[]),
-    'C20': dict(level='proof', gen=gen_C20, oracle=oracle_C20, nontrivial=lambda c, o: len(scan(o, 'trace')) >= 5,
-                rule="traced drains on documents up to 60 nodes; non-trivial = >= 5 match attempts", obligations=[]),
+    'C20': dict(level='proof', gen=gen_C20, oracle=lambda c, o: oracle_C20(c, o) if c['family'] == 'q' else [],
+                nontrivial=lambda c, o: len(scan(o, 'trace')) >= 5 or c['family'] == 'c',
+                rule="traced drains on documents up to 60 nodes (has-family filters included); cyclic dict/list structures of "
+                     "2-6 nodes with recursive paths with and without reachable matches, find and find_matches, 1-3 next() calls "
+                     "each against the real 1 000 000-action budget under a watchdog; non-trivial = >= 5 match attempts, or a "
+                     "cyclic case", obligations=[]),
     'C08': dict(level='proof', gen=gen_mut(('set', 'set', 'set', 'pop')), oracle=oracle_C08, nontrivial=nontrivial_m(('set',)),
                 rule="histories of 1-12 set_/set_match calls (plus some pops) on one evolving document; targets derived from "
                      "the current document: existing slots, new keys, append position, out-of-range/negative indices, wrong "
@@ -879,7 +885,8 @@ def compare_cases(cases, obs):
         if not idx:
             continue
         tms = [f['printer'](cases[i]['case']) for i in idx]
-        m, details, errs = coqrun.compare(tms, [obs[i] for i in idx], f['run_fn'], f['case_type'], extra_imports=f['imports'])
+        m, details, errs = coqrun.compare(tms, [obs[i] for i in idx], f['run_fn'], f['case_type'], extra_imports=f['imports'],
+                                          shard=f.get('shard', 40))
         errors += errs
         for k in m:
             mism.append((idx[k], details.get(k)))
